@@ -76,7 +76,7 @@ func MutateStatic(t *sim.T, m *StaticModel, focus FaultFocus) string {
 	f := m.Feed
 	var kind int
 	if focus == FocusRefs {
-		kind = []int{2, 3, 4, 5, 6, 7, 16, 17, 18, 0, 19, 20}[t.Choose(12)]
+		kind = []int{2, 3, 4, 5, 6, 7, 16, 17, 18, 0, 19, 20, 14}[t.Choose(13)]
 	} else {
 		kind = t.Choose(21)
 	}
